@@ -173,6 +173,30 @@ def _run_scripted(rng, idx):
     )
     desc = {"hist": idx, "T": T, "controller": ckind, "params": params, "clip": clip, "eps": eps, "gamma": gamma,
             "hostile": hostile, "profile": prof, "dt0": dt0, "save_at": save_at, "layout": sorted(kinds), "offset": off}
+    # third pass (every third history): the terminal-value routine with the same components and the caller's eps; the final
+    # time sits at / within eps of / just beyond a natural step end (seed C06-s4: the routine dropped the caller's eps)
+    if ends and idx % 3 == 0 and not V:
+        e0 = rng.choice(ends)
+        t1 = e0 + rng.choice([0.0, 1.0, -1.0, 1.0, -1.0]) * eps * rng.uniform(0.1, 0.9) if rng.random() < 0.7 else e0 + rng.choice([-3.0, 3.0]) * eps
+        if t1 > off + 4 * eps:
+            log_t = record.Log()
+            solve_t = ivpsolve.solve_adaptive_terminal_values(
+                solver=record.ScriptedSolver(log_t), error=record.ScriptedError(log_t, hadm, gamma),
+                control=record.RecControl(log_t, ctrl), clip_dt=clip, while_loop=record.make_while(log_t, max_iter=4000))
+            try:
+                with jax.disable_jit():
+                    sol_t = solve_t(None, t0=jnp.asarray(off), t1=jnp.asarray(t1), atol=1e-3, rtol=1e-3, dt0=dt0, eps=eps)
+            except record.BudgetExceeded:
+                sol_t = None
+            if sol_t is not None:
+                Vt, Ct = stepctl.check_trace(
+                    log_t.events, save_at=[off, float(t1)], eps=eps, clip=clip, fmin=params["factor_min"], fmax=params["factor_max"], dt0=dt0,
+                    result_t=[off, float(np.asarray(sol_t.t))], result_steps=[0, int(np.asarray(sol_t.num_steps))])
+                C["terminal_value_runs"] = 1
+                if Vt:
+                    V = [(rule, "terminal-value routine: " + msg, i) for rule, msg, i in Vt]
+                    desc = {**desc, "save_at": [off, float(t1)], "layout": ["terminal"], "routine": "terminal_values"}
+                    return V, C, desc, log_t
     return V, C, desc, log
 
 
